@@ -130,8 +130,9 @@ def plan(tier, seed):
         p.append({'lang': lang, 'n': n, 'chunk': 8 if tier == 'quick' else 20})
         p.append({'lang': lang, 'n': n // 3, 'chunk': 8 if tier == 'quick' else 20,
                   'switches': [SWITCHES[0]], 'tag': 'nousv'})
+        p.append({'lang': lang, 'n': 6 if tier == 'quick' else 40, 'chunk': 6 if tier == 'quick' else 20,
+                  'tag': 'cast', 'extra_argv': ['--cast-numbers']})
         if tier != 'quick':
-            p.append({'lang': lang, 'n': 40, 'chunk': 20, 'tag': 'cast', 'extra_argv': ['--cast-numbers']})
             p.append({'lang': lang, 'n': 24, 'chunk': 12, 'tag': 'noshim', 'shim': False})
             p.append({'lang': lang, 'n': 40, 'chunk': 20, 'max_depth': 7})
     return p
